@@ -18,7 +18,7 @@ Print Assumptions C12_code_variants.
 
 (* non-vacuity: a three-level forest with a diamond; the translated code walks it depth first in definition order *)
 Example C12_code_variants_nonvacuous :
-  let ops := [Define [] [] [] []; Define [0] [] [] []; Define [0] [] [] []; Define [1; 2] [] [] []; Define [1] [] [] []] in
+  let ops := [Define [] [] [] [] false; Define [0] [] [] [] false; Define [0] [] [] [] false; Define [1; 2] [] [] [] false; Define [1] [] [] [] false] in
   iter_all_subclasses (S (length (defs ops))) (subclasses_of (defs ops)) 0 = [1; 3; 4; 2; 3]
-  /\ variants (defs ops) (Site [0] true true false false false false 0) = [1; 3; 4; 2; 3; 0].
+  /\ variants (defs ops) (Site [0] true true false false false false 0 0) = [1; 3; 4; 2; 3; 0].
 Proof. vm_compute. split; reflexivity. Qed.
